@@ -64,7 +64,6 @@ inductive IV where
   | float (t : String)
   | floatLit (t : String)     -- a float literal of the document (same meaning as `float`; gqlparser parses it)
   | str (s : String)
-  | enum (s : String)         -- enum literal (documents only)
   | list (xs : List IV)
   | obj (fs : List (String × IV))
   deriving Repr, Inhabited
@@ -111,7 +110,7 @@ def ivOfLit (vars : List (String × IV)) : Nat → Lit → IV
     | .str s => .str s
     | .bool b => .bool b
     | .null => .null
-    | .enum s => .enum s
+    | .enum s => .str s   -- an enum literal is its name (validation has checked the literal's kind)
     | .list xs => .list (xs.map (ivOfLit vars f))
     | .obj fs => .obj (fs.map fun kv => (kv.1, ivOfLit vars f kv.2))
 
@@ -259,7 +258,7 @@ def coerceTy (dv : Devs) (s : Schema) (obj : List FieldDef → IV → Path → E
          | none => .error (.at path))
       | some (.enum vals) =>
         (match iv with
-         | .enum x | .str x => if vals.contains x then .ok (.str x) else .error (.at path)
+         | .str x => if vals.contains x then .ok (.str x) else .error (.at path)
          | _ => .error (.at path))
       | some (.input _ fields) => obj fields iv path
 
